@@ -283,3 +283,190 @@ func checkReadsStayInLedger(r *runner, views map[string]*LedgerView) []Violation
 	}
 	return dedupViolations(vs)
 }
+
+func init() {
+	// C19, long-lived stores: a replication pipeline opens its ledger once and keeps the store. The scenario is
+	// the replication world's (profiles_repl.go) with one ledger alone in its bucket when the pipelines start,
+	// and a sibling ledger that joins the bucket and is written to while they run; only the clause "what a
+	// pipeline hands to the exporter is its own ledger's log" is judged here (the delivery clauses are C33's).
+	register(Profile{Property: "C19", Name: "pipeline-reads", Gen: func(r *RNG, seed uint64, tier string) (*Scenario, *ExploreCfg) {
+		sc, ex := profiles["C33"][0].Gen(r, seed, tier)
+		sc.Property, sc.Profile, sc.Checks = "C19", "pipeline-reads", []string{"pipeline-reads-own-ledger"}
+		late := false
+		for _, c := range sc.Clients {
+			for _, op := range c {
+				late = late || (op.Kind == KCreateLedger && op.Ledger == "l9")
+			}
+		}
+		if !late {
+			sc.Clients = append(sc.Clients, []Op{{ID: "cl.0", Kind: KSleep, SleepMs: Pick(r, []int{1, 30, 800})}, {ID: "cl.1", Kind: KCreateLedger, Ledger: "l9"},
+				{ID: "cl.2", Kind: KPostings, Ledger: "l9", Postings: []PostingSpec{{"world", "late", "7", "EUR"}}},
+				{ID: "cl.3", Kind: KPostings, Ledger: "l9", Postings: []PostingSpec{{"late", "later", "3", "EUR"}}}})
+		}
+		return sc, ex
+	}})
+}
+
+// ---------------------------------------------------------------- C35, read side
+
+// checkReadsRespectFeatures: no read of the run sent a statement that needs a feature its ledger has disabled
+// (realdriver.go:auditRead). The storage layer raises the missing-feature refusal before it sends anything, so a
+// statement on moves / post_commit_effective_volumes for a ledger that does not fill them means the read was
+// answered (wrongly: from nothing) instead of refused.
+func checkReadsRespectFeatures(r *runner) []Violation {
+	var vs []Violation
+	r.w.mu.Lock()
+	ms := append([]FeatureMisread(nil), r.w.misreads...)
+	r.w.mu.Unlock()
+	seen := map[string]bool{}
+	for _, m := range ms {
+		var op *Op
+		if or := r.byID[opIDOf(m.Task)]; or != nil {
+			op = or.Op
+		}
+		what := m.Task
+		if op != nil && op.Raw != nil {
+			what = fmt.Sprintf("%s (%s %s %s)", m.Task, op.Raw.Method, op.Raw.Path, op.Raw.Body)
+		}
+		k := what + m.Feature
+		if seen[k] {
+			continue
+		}
+		seen[k] = true
+		vs = append(vs, Violation{r.sc.Property, "read-needing-a-disabled-feature-is-refused", fmt.Sprintf("%s on ledger %s, whose %s is %q, was not refused: the storage layer sent %s %s", what, m.Ledger, m.Feature, m.Value, m.SQL, misreadTag(op, m))})
+	}
+	// ... and a refusal is a client error naming the feature, never a 5xx (no fault is injected into these reads)
+	for _, or := range r.results {
+		if or.Op.Kind != KRaw || or.Op.Raw == nil || or.Op.Raw.Method != "GET" || len(or.Faults) > 0 {
+			continue
+		}
+		r.w.mu.Lock()
+		why, refused := r.w.refusals[or.Op.ID]
+		r.w.mu.Unlock()
+		if refused && or.Out.Class != "client_err" {
+			vs = append(vs, Violation{r.sc.Property, "a-refused-read-is-a-client-error", fmt.Sprintf("%s GET %s %s on ledger %s (features %v): the storage layer refused it (%s) and the answer is %d %s %s", or.Op.ID, or.Op.Raw.Path, or.Op.Raw.Body, or.Op.Ledger, r.featuresOf(or.Op.Ledger), why, or.Out.Status, or.Out.Code, or.Out.Msg)})
+		}
+	}
+	return vs
+}
+
+func (r *runner) featuresOf(name string) map[string]string {
+	if row, ok := r.state[rowKey{"ledger", "", name}].(*LedgerRow); ok {
+		return row.Features
+	}
+	return nil
+}
+
+// misreadTag names the handler at fault (stable text: known findings are keyed on it).
+func misreadTag(op *Op, m FeatureMisread) string {
+	if op == nil || op.Raw == nil {
+		return "[?]"
+	}
+	path := op.Raw.Path
+	if i := strings.Index(path, "?"); i >= 0 {
+		path = path[:i]
+	}
+	parts := strings.Split(strings.Trim(path, "/"), "/")
+	res := "?"
+	if len(parts) >= 3 {
+		res = parts[2]
+		if res == "aggregate" && len(parts) >= 4 {
+			res = "aggregate/" + parts[3]
+		}
+	}
+	kind := "read"
+	switch {
+	case strings.Contains(op.Raw.Path, "expand=effectiveVolumes"):
+		kind = "expand=effectiveVolumes"
+	case strings.Contains(op.Raw.Path, "expand=volumes"):
+		kind = "expand=volumes"
+	case strings.Contains(op.Raw.Body, "balance"):
+		kind = "balance filter"
+	}
+	pit := "no pit"
+	if strings.Contains(op.Raw.Path, "pit=") || strings.Contains(op.Raw.Path, "endTime=") {
+		pit = "pit"
+	} else if strings.Contains(op.Raw.Path, "oot=") || strings.Contains(op.Raw.Path, "startTime=") {
+		pit = "oot only"
+	}
+	return fmt.Sprintf("[%s %s, %s, needs %s]", res, kind, pit, m.Feature)
+}
+
+// featureReads: reads that may need a feature, for one ledger (appended to a client of the C35 profile).
+func featureReads(r *RNG, l string, prefix string, txN uint64) []Op {
+	pits := []string{"2000-01-01T00:00:00Z", "1999-07-01T00:00:00Z", "2031-01-01T00:00:00Z"}
+	var out []Op
+	get := func(path, body string) {
+		req := &Request{Method: "GET", Path: path}
+		if body != "" {
+			req.Body = body
+			req.Header = map[string]string{"Content-Type": "application/json"}
+		}
+		out = append(out, Op{ID: fmt.Sprintf("%s.r%d", prefix, len(out)), Kind: KRaw, Ledger: l, Raw: req})
+	}
+	n := 2 + r.Intn(5)
+	for i := 0; i < n; i++ {
+		pit := ""
+		switch r.Intn(4) {
+		case 0, 1:
+			pit = "pit=" + Pick(r, pits)
+		case 2:
+			pit = ""
+		}
+		q := func(parts ...string) string {
+			var ps []string
+			for _, p := range parts {
+				if p != "" {
+					ps = append(ps, p)
+				}
+			}
+			if len(ps) == 0 {
+				return ""
+			}
+			return "?" + strings.Join(ps, "&")
+		}
+		switch r.Intn(9) {
+		case 0:
+			// volumes over a period: pit (endTime), oot (startTime), both, with either date
+			var ps []string
+			switch r.Intn(4) {
+			case 0:
+				ps = append(ps, "endTime="+Pick(r, pits))
+			case 1:
+				ps = append(ps, "startTime="+Pick(r, pits))
+			case 2:
+				ps = append(ps, "startTime="+pits[1], "endTime="+pits[0])
+			}
+			if r.Chance(0.4) {
+				ps = append(ps, "insertionDate=true")
+			}
+			if r.Chance(0.3) {
+				ps = append(ps, "groupBy=1")
+			}
+			get("/v2/"+l+"/volumes"+q(ps...), "")
+		case 1:
+			ins := ""
+			if r.Chance(0.5) {
+				ins = "useInsertionDate=true"
+			}
+			get("/v2/"+l+"/aggregate/balances"+q(pit, ins), "")
+		case 2:
+			get("/v2/"+l+"/accounts"+q(pit, Pick(r, []string{"", "expand=volumes", "expand=effectiveVolumes"})), "")
+		case 3:
+			get("/v2/"+l+"/accounts"+q(pit), Pick(r, []string{`{"$gt":{"balance[USD]":0}}`, `{"$lt":{"balance":100}}`}))
+		case 4:
+			get("/v2/"+l+"/accounts/"+Pick(r, users)+q(pit, Pick(r, []string{"", "expand=volumes", "expand=effectiveVolumes"})), "")
+		case 5:
+			get("/v2/"+l+"/transactions"+q(pit, Pick(r, []string{"", "expand=effectiveVolumes", "expand=volumes"})), "")
+		case 6:
+			if txN > 0 {
+				get(fmt.Sprintf("/v2/%s/transactions/%d", l, 1+r.Intn(int(txN)))+q(pit, Pick(r, []string{"", "expand=effectiveVolumes"})), "")
+			}
+		case 7:
+			get("/v2/"+l+"/logs"+q(pit), "")
+		default:
+			get("/v2/"+l+"/accounts"+q(pit), `{"$match":{"address":"u:"}}`)
+		}
+	}
+	return out
+}
